@@ -668,8 +668,8 @@ inline bool plan_effect(Model const& M, ModelTraits const& T, Op const& op, Effe
 		}
 		if(op.kind == O_VASSIGN_IL && !il_shape_ok(dv.D, dv.n)) return false;
 		if(op.kind == O_VFILL) {
-			if(op.var < 0 || op.var > 6 || (op.var == 0 && dv.D != 1)) return false;
-			static char const* const names[] = {"fill", "begin+n", "it+=n", "elements[n]", "end-k", "it-=k", "it=jt"};
+			if(op.var < 0 || op.var > 8 || (op.var == 0 && dv.D != 1)) return false;
+			static char const* const names[] = {"fill", "begin+n", "it+=n", "elements[n]", "end-k", "it-=k", "it=jt", "it[k]", "end[-k]"};
 			var(names[op.var]);
 		}
 		if(op.kind == O_EASSIGN_IL && dv.count() > 6) return false;
